@@ -353,13 +353,21 @@ def oracle(ops, outs):
         if st is None:
             continue
         ctrl = st["ctrl"]
+        # ---- ledger (what the caller did) -----------------------------------------------
+        if t[0] == "sent":
+            st["ledger"] += int(t[1])
+        elif t[0] in ("ack", "lost", "discard"):
+            st["ledger"] -= int(t[1])
+        if st["ledger"] < 0 or st["ledger"] > U32:
+            st["contract"] = False          # the caller contract is broken (shrunk / hand-written input): nothing to check
         if out.startswith("panic"):
-            if "overflow" in out:
-                bad.append((i, f"cc:{ctrl}:cwnd-overflow", f"{op}: arithmetic overflow in the controller: {out}"))
-            elif "minimum_window" in out:
-                bad.append((i, f"cc:{ctrl}:cwnd-below-min", f"{op}: debug assertion on the minimum window fired: {out}"))
-            elif st["contract"]:
-                bad.append((i, f"cc:{ctrl}:panic:{t[0]}", f"{op} panicked although the caller contract holds: {out}"))
+            if st["contract"]:
+                if "overflow" in out:
+                    bad.append((i, f"cc:{ctrl}:cwnd-overflow", f"{op}: arithmetic overflow in the controller: {out}"))
+                elif "minimum_window" in out:
+                    bad.append((i, f"cc:{ctrl}:cwnd-below-min", f"{op}: debug assertion on the minimum window fired: {out}"))
+                else:
+                    bad.append((i, f"cc:{ctrl}:panic:{t[0]}", f"{op} panicked although the caller contract holds: {out}"))
             st = None
             continue
         o = parse_obs(out)
@@ -367,13 +375,6 @@ def oracle(ops, outs):
             bad.append((i, f"cc:{ctrl}:malformed-output", f"{op} -> {out}"))
             continue
         prev = st["prev"]
-        # ---- ledger -----------------------------------------------------------------
-        if t[0] == "sent":
-            st["ledger"] += int(t[1])
-        elif t[0] in ("ack", "lost", "discard"):
-            st["ledger"] -= int(t[1])
-        if st["ledger"] < 0 or st["ledger"] > U32:
-            st["contract"] = False          # the generator broke the caller contract: nothing to check
         if t[0] == "mtu":
             st["mds"] = int(t[1])
         mds = st["mds"]
